@@ -132,7 +132,7 @@ def r1(ctx, new):
                 et = ctx.eng.event_term(new, e)
                 if any(x.tag == 'call' and x[3] and tuple(x[3]) == tuple(full_site) for x in walk(ctx.eng.expand(et, stop={callee_name(t)}))):
                     # which of the stored vectors does the extended element belong to?
-                    if e['mutarg'] != 0:
+                    if e.get('mutarg', 0) != 0:
                         continue
                     coll = zipped_component(ctx, new, e)
                     for nm in ('g_vec', 'h_vec'):
